@@ -10,6 +10,7 @@ mod canon;
 mod master;
 mod net;
 mod reader;
+mod settings;
 mod valve;
 
 use std::io::{BufRead, Write};
@@ -25,6 +26,7 @@ fn entries() -> Vec<(&'static str, EntryFn)> {
     v.extend(reader::entries());
     v.extend(valve::entries());
     v.extend(master::entries());
+    v.extend(settings::entries());
     v
 }
 
